@@ -535,7 +535,7 @@ void Exec::run_call(int idx) {
   if (oi.level == 3 && op_selfcheck_errors()) {
     Violation v;
     v.kind = "model-mismatch";
-    v.detail = std::string(oi.name) + ": idft(dft(a)) on the surviving module differs from a in " + std::to_string(op_selfcheck_errors()) + " coefficient(s)";
+    v.detail = std::string(oi.name) + ": a module instance returned " + std::to_string(op_selfcheck_errors()) + " wrong coefficient(s) (idft(dft(a)) != a or automorphism != definition)";
     v.call = idx;
     v.op = c.op;
     viol.push_back(v);
